@@ -75,7 +75,7 @@ class C02(Sim):
     expected_probes = [
         "nan_row_after_boundary_lock_previous", "nan_first_row_after_restart_with_default", "out_of_range_row_lock_range",
         "one_row_segment", "matrix_setter_single_input", "all_nan_segment", "parity_event", "hybrid_engine",
-        "output_variable_in_antecedent", "vector_setter", "cascade_changed_a_row", "configuration_changed_between_segments", "scalar0d_setter", "mixed_family_output_with_disjoint_rules", "shipped_example_engine", "output_matrix_compared", "input_arrays_refilled_in_place",
+        "output_variable_in_antecedent", "vector_setter", "cascade_changed_a_row", "configuration_changed_between_segments", "scalar0d_setter", "mixed_family_output_with_disjoint_rules", "shipped_example_engine", "output_matrix_compared", "input_arrays_refilled_in_place", "one_row_as_0d_arrays",
     ]
 
     def prepare(self) -> None:
@@ -83,6 +83,9 @@ class C02(Sim):
 
     # ---------------------------------------------------------------- generation
     def cases(self, rng, run: int, tier: str) -> Iterator[dict]:
+        if rng.random() < (0.004 if tier == "quick" else 0.01):
+            yield self._huge_case(rng)
+            return
         sp = S.gen_spec(rng, activations=["General"], fn_reads_output=False)
         r0 = rng.random()
         if r0 < 0.06:
@@ -111,7 +114,7 @@ class C02(Sim):
                     rows = [S.draw_row(rng, sp, special) for _ in range(k)]
                     if rng.random() < 0.25:
                         rows[0] = [fenc(float("nan"))] * len(sp["inputs"])
-                setter = rng.choice(["vars", "vars", "matrix", "matrix", "vector", "scalar0d", "inplace", "inplace"])
+                setter = rng.choice(["vars", "vars", "matrix", "matrix", "vector", "scalar0d", "inplace", "inplace", "np0d"])
                 if force_inplace:
                     setter = "inplace"
                 if setter == "scalar0d":
@@ -131,6 +134,34 @@ class C02(Sim):
                 v = (rng.random() < 0.6) if key != "default" else fenc(rng.choice([float("nan"), 0.0, 0.5, 2.0, -1.0]))
                 ops.append({"op": "set", "out": rng.randrange(2), "key": key, "v": v})
         yield {"arm": "clean", "config": sp, "ops": ops}
+
+    def _huge_case(self, rng) -> dict:
+        """One batch of more than 8192 rows (NumPy's buffered iterators and block-wise loops work in chunks of 8192
+        elements) on a small engine with lock-previous on, NaN runs placed across the multiples of 8192 and at the
+        ends. The reference replica is fed in sub-batches of 61 rows (row-by-row would cost seconds); by the property
+        every segmentation equals row-by-row processing, so a difference between two segmentations is a violation."""
+        sp = S.gen_spec(rng, activations=["General"], fn_reads_output=False, max_inputs=1, max_outputs=1, max_blocks=1, max_rules=3,
+                        depth=1, disabled=0.0, mixed_types=0.0)
+        o = sp["outputs"][0]
+        o["lock_previous"] = True
+        o["enabled"] = True
+        if o["defuzzifier"] and "resolution" in o["defuzzifier"]:
+            o["defuzzifier"]["resolution"] = 10
+        sp["inputs"][0]["enabled"] = True
+        k = rng.choice([8193, 8200, 8256, 16390])
+        rows = [S.draw_row(rng, sp, 0.02) for _ in range(64)]
+        rows = [rows[i % 64] for i in range(k)]
+        nanrow = [fenc(float("nan"))] * len(sp["inputs"])
+        for m in range(8192, k + 1, 8192):
+            for j in range(m - rng.randint(1, 4), min(k, m + rng.randint(0, 4))):
+                rows[j] = nanrow
+        for _ in range(rng.randint(0, 3)):
+            a = rng.randrange(k)
+            for j in range(a, min(k, a + rng.randint(1, 5))):
+                rows[j] = nanrow
+        ops = [{"op": "seg", "rows": [S.draw_row(rng, sp, 0.0) for _ in range(2)], "setter": "vars"},
+               {"op": "seg", "rows": rows, "setter": rng.choice(["vars", "matrix"])}]
+        return {"arm": "huge", "config": sp, "ops": ops}
 
     # ---------------------------------------------------------------- execution
     def execute(self, trace: dict, keep_log: bool = False) -> Outcome:
@@ -235,6 +266,8 @@ class C02(Sim):
                 st.hit("probes.nan_row_after_boundary_lock_previous")
             if after_restart and np.isnan(arr[0]).all() and any(not np.isnan(ov.default_value) for ov in A.output_variables):
                 st.hit("probes.nan_first_row_after_restart_with_default")
+            if setter == "np0d" and k != 1:
+                setter = "vars"
             if setter == "inplace":
                 # the caller keeps the arrays it handed over and refills them in place for the next batch (legal: the
                 # variable holds a reference). Only when the previous segment left k-row arrays of ours in every input
@@ -246,7 +279,11 @@ class C02(Sim):
             ea = eb = None
             eb_row = -1
             try:
-                if setter == "inplace":
+                if setter == "np0d":
+                    for c, iv in enumerate(A.input_variables):
+                        iv.value = np.array(arr[0, c])  # one row as 0-d arrays (fl.scalar(x)): mutable scalars
+                    st.hit("probes.one_row_as_0d_arrays")
+                elif setter == "inplace":
                     for c, h in enumerate(held):
                         h[...] = arr[:, c]
                     st.hit("probes.input_arrays_refilled_in_place")
@@ -266,12 +303,29 @@ class C02(Sim):
                 A.process()
             except Exception as e:
                 ea = e
+            huge = k > 200
+            if huge:
+                st.hit("probes.batch_longer_than_8192_rows" if k > 8192 else "probes.batch_longer_than_200_rows")
             b_vals: list[list[tuple]] = []
             b_fuz: list[list[tuple]] = []
             b_deg: list[list[list]] = []
             b_mat: list = []
-            for r in range(k):
+            step = 61 if huge else 1
+            for r in range(0, k, step):
                 try:
+                    if huge:  # reference = another segmentation (sub-batches of 61 rows)
+                        for c, iv in enumerate(B.input_variables):
+                            iv.value = arr[r:r + step, c].copy()
+                        B.process()
+                        n_sub = len(arr[r:r + step])
+                        cols = [bcast(cv(ov.value), n_sub) for ov in B.output_variables]
+                        fuzs = [bcast(cs(ov.fuzzy_value()), n_sub) for ov in B.output_variables]
+                        for q in range(n_sub):
+                            b_vals.append([(col[q],) for col in cols])
+                            b_fuz.append([(fz[q],) for fz in fuzs])
+                            b_deg.append([[] for _ in B.output_variables])
+                            b_mat.append(None)
+                        continue
                     for c, iv in enumerate(B.input_variables):
                         iv.value = float(arr[r, c])
                     B.process()
